@@ -457,6 +457,21 @@ pub fn run(tier: Tier) -> i32 {
     let mut seqs = crate::e2::sequences(ops.len(), depth);
     // canonicalisation: histories must start by opening a document (nothing else is applicable)
     seqs.retain(|s| s.first().map(|o| matches!(ops[*o], HOp::Open(..))).unwrap_or(false));
+    // one level deeper for "both documents open, a file-dictionary word and a user-dictionary word
+    // added in either order from either document" (a file word must stay in its file)
+    if depth < 4 {
+        let idx = |h: &dyn Fn(&HOp) -> bool| -> Vec<usize> { ops.iter().enumerate().filter(|(_, o)| h(o)).map(|(i, _)| i).collect() };
+        let o0 = idx(&|o| matches!(o, HOp::Open(0, _)))[0];
+        let o1 = idx(&|o| matches!(o, HOp::Open(1, _)))[0];
+        let files = idx(&|o| matches!(o, HOp::AddFile(_, w) if WORDS[..3].contains(w)));
+        let users = idx(&|o| matches!(o, HOp::AddUser(_, w) if WORDS[..3].contains(w)));
+        for f in &files {
+            for u in &users {
+                seqs.push(vec![o0, o1, *f, *u]);
+                seqs.push(vec![o0, o1, *u, *f]);
+            }
+        }
+    }
     let n = seqs.len() as u64;
     let res = crate::pool::par_chunks(n, 8, ncpu(), |s, e| {
         let mut viols = vec![];
